@@ -1621,19 +1621,16 @@ theorem chooseRep_general_inv {parts : List (List Entry)} {es' : List Entry}
       · simp at h
       · simpa using h.symm
 
-/-- The chosen representation denotes exactly the merged entries, provided a
-    location-free frequency-1 entry has norm bits below `2^31` (the 1-hit FST
-    value keeps only 31 norm bits). -/
+/-- The chosen representation denotes exactly the merged entries (no condition on the norm
+    bits any more: since the repair of D14 the 1-hit form is only chosen when it can hold them). -/
 theorem chooseRep_entries {parts : List (List Entry)} {r : PostRep}
-    (h : chooseRep parts = some r)
-    (hn : ∀ e ∈ parts.flatMap id, e.freq = 1 → e.locs = [] → e.norm < 2 ^ 31) :
+    (h : chooseRep parts = some r) :
     r.entries = parts.flatMap id := by
   cases r with
   | general es => exact chooseRep_general_inv h
   | oneHit d nb =>
-    obtain ⟨e, hes, hl, _, hf, hd, hnb⟩ := chooseRep_oneHit_inv h
-    have hnorm := hn e (by rw [hes]; exact List.mem_cons_self) hf hl
-    rw [hes, hd, hnb, Nat.mod_eq_of_lt hnorm]
+    obtain ⟨e, hes, hl, _, hf, hd, hnb, _, _⟩ := chooseRep_oneHit_inv h
+    rw [hes, hd, hnb]
     cases e
     simp only [PostRep.entries] at *
     subst hl hf
